@@ -2186,6 +2186,15 @@ def _str_to_owned(m, a, c):
 
 @reg("core::str::<impl str>::parse")
 def _str_parse(m, a, c):
+    # `s.parse::<F>()` is F::from_str(s): a crate type's own FromStr impl when F is one
+    from .tystr import type_head
+    targ = (c.get("targs") or [""])[0] or ""
+    head = type_head(targ)
+    if head in m.facts.adts:
+        for imp in m.facts.impls_of(trait="std::str::FromStr", self_adt=head):
+            for it in imp["items"]:
+                if it["name"] == "from_str" and it["path"] in m.facts.bodies:
+                    return m.call_path(it["path"], [a[0]])
     return _from_str_prim(m, a, c)
 
 
